@@ -183,6 +183,12 @@ def isolation_groups(tier):
         [('ct_off', t4, ['x'], (), False, 0), ('ct_off', t4, ['x'], (), False, 1)],
         [('ct_on', 'out = x and (once[0,1] x)', ['x'], (), False, 0), ('dt_on', 'out = x and (once[0,1] x)', ['x'], (), False, 0)],
     ]
+    t6 = 'out = (once[0,2] (x >= 0)) and (historically[1,2] (y <= 1))'
+    g2 += [
+        [('dt_on', t6, ['x', 'y'], (), False, 0, (1, 's')), ('dt_on', t6, ['x', 'y'], (), False, 1, (500, 'ms'))],
+        [('dt_off', t6, ['x', 'y'], (), False, 0, (500, 'ms')), ('dt_on', t6, ['x', 'y'], (), False, 0, (1, 's'))],
+        [('dt_off', t4.replace('[0,1]', '[0,2]'), ['x'], (), False, 0, (2, 's')), ('dt_off', t4.replace('[0,1]', '[0,2]'), ['x'], (), False, 1, (1, 's'))],
+    ]
     g3 = [
         [('dt_on', t1, ['x', 'y'], (), False, 0), ('dt_on', t1, ['x', 'y'], (), False, 1), ('dt_off', t1, ['x', 'y'], (), False, 0)],
         [('dt_on', t3, ['x'], sub, False, 0), ('dt_on', t3, ['x'], sub, True, 1), ('ct_on', t5, ['x'], (), False, 0)],
@@ -193,8 +199,9 @@ def isolation_groups(tier):
 
 
 def make(obj):
-    kind, text, vs, subs, pastify, variant = obj
-    return impl.build(kind, text, vs, subspecs=subs, pastify=pastify)
+    kind, text, vs, subs, pastify, variant = obj[:6]
+    period = obj[6] if len(obj) > 6 else None
+    return impl.build(kind, text, vs, subspecs=subs, pastify=pastify, period=period)
 
 
 def do_call(spec, call):
@@ -229,7 +236,7 @@ def run_isolation(shard, tier, res, mod):
             res.transitions += 1
             res.evaluations += 1
             if r != alone[who][pos[who]]:
-                case = {'mode': 'isolation', 'group': [list(o[:3]) + [list(o[3]), o[4], o[5]] for o in group], 'order': list(order),
+                case = {'mode': 'isolation', 'group': [list(o[:3]) + [list(o[3]), o[4], o[5]] + ([list(o[6])] if len(o) > 6 else []) for o in group], 'order': list(order),
                         'object': who, 'call': pos[who]}
                 res.violation(mod, case, 'object %d (%s `%s`) call %d returned %r in the interleaving %r, alone it returns %r'
                               % (who, group[who][0], group[who][1], pos[who] + 1, r, order, alone[who][pos[who]]))
@@ -357,7 +364,7 @@ def replay(case):
         b, _ = run_workload(case['seed'])
         return [] if a == b else ['digest differs for seed %d' % case['seed']]
     if mode == 'isolation':
-        group = [tuple(o[:3]) + (tuple(o[3]), o[4], o[5]) for o in case['group']]
+        group = [tuple(o[:3]) + (tuple(o[3]), o[4], o[5]) + ((tuple(o[6]),) if len(o) > 6 else ()) for o in case['group']]
         seqs = [call_seq(o[0], o[2], o[5]) for o in group]
         alone = []
         for o, seq in zip(group, seqs):
